@@ -122,7 +122,8 @@ def array_rule(ctx, p, K):
 
 # --------------------------------------------------------------------------------------------------------------------
 def _vec2(K, e: ast.expr, env, S, f) -> Optional[Tuple[Poly, Poly]]:
-    """np.array([a, b]) -> (a, b) as forms"""
+    """np.array([a, b]) -> (a, b) as forms (single-assignment temporaries of f looked through)"""
+    e = wire.inline_locals(f, e)
     if isinstance(e, ast.Call) and norm_text(e.func) in ("np.array", "numpy.array") and e.args and isinstance(e.args[0], (ast.List, ast.Tuple)) and len(e.args[0].elts) == 2:
         a = K.scalar(K.ev(e.args[0].elts[0], env, S, f, (), (), 0))
         b = K.scalar(K.ev(e.args[0].elts[1], env, S, f, (), (), 0))
@@ -217,6 +218,7 @@ def lattice_rule(ctx, p, K):
             if isinstance(n, ast.Assign) and isinstance(n.value, ast.Call) and norm_text(n.value.func) in ("np.vstack", "numpy.vstack") and isinstance(n.value.args[0], (ast.Tuple, ast.List)):
                 for el in n.value.args[0].elts:
                     d = (0, 0)
+                    el = wire.inline_locals(m, el)   # name-free: `doubled = 2 * self.coordinates[sel]` held in a local is the expression itself
                     core = el
                     if isinstance(el, ast.BinOp) and isinstance(el.op, ast.Add):
                         # m*C[sel] + np.array([dx, dy]), either operand order
